@@ -2,7 +2,7 @@
     A crash is a process kill: the kernel's file state survives, an in-flight write leaves a prefix.
     Power loss / write-back reordering is outside the statement (the code never calls fsync). *)
 From TB Require Import Base Decimal BencodeModel TorrentModel TorrentProofs PathModel FsModel SolverModel FinderModel RunModel
-                       SolverProofs RunProofs FsProofs FaultProofs PreludeProofs TableProofs Generated GeneratedObligations SystemModel SystemProofs GlueProofs RunExample EstablishProofs CompleteProofs RerunProofs SolverModel SearchProofs.
+                       SolverProofs RunProofs FsProofs FaultProofs PreludeProofs TableProofs Generated GeneratedObligations SystemModel SystemProofs GlueProofs RunExample EstablishProofs CompleteProofs RerunProofs SolverModel SearchProofs WholeRunProofs.
 Local Open Scope N_scope.
 
 (** Every cut-off event sequence of a good program - cut between or in the middle of any
@@ -66,6 +66,16 @@ Example C11_rerun_premises_hold : avail_stable ex_content ex_es ex_pc ex_wit ex_
   exists s, sreach {| s_fs := ex_f0; s_pool := ex_pool |} s /\ s_pool s = [Ret Fault] /\ fs_file (s_fs s) ex_target = Some [7; 0].
 Proof. exact (conj ex_stable ex_reach_cut). Qed.
 
+(** ... END TO END, for a run of loadable torrents set up as the tool sets it up ([run_setup]). *)
+Theorem C11_whole_rerun_recovers H content export ts ix es ws f0 i pc wit s1 s2 o :
+  run_setup H content export ts ix es ws f0 (map (solve_prog H) ws) ->
+  nth_error ws i = Some pc -> H (piece_bytes content pc) = w_hash pc -> Forall (pad_zero content) (w_segs pc) ->
+  avail_stable content es pc wit f0 ->
+  sreach {| s_fs := f0; s_pool := map (solve_prog H) ws |} s1 ->
+  freach {| s_fs := s_fs s1; s_pool := map (solve_prog H) ws |} s2 -> nth_error (s_pool s2) i = Some (Ret o) ->
+  o = Success /\ forall sg, In sg (w_segs pc) -> e_pad (ps_entry sg) = false -> holds_seg content (s_fs s2) sg.
+Proof. exact (whole_rerun_recovers H content export ts ix es ws f0 i pc wit s1 s2 o). Qed.
+
 Print Assumptions C11_cut_traces_are_good.
 Print Assumptions C11_cut_write_is_content.
 Print Assumptions C11_interrupted_bytes_sound.
@@ -73,3 +83,4 @@ Print Assumptions C11_verified_ranges_survive.
 Print Assumptions C11_every_interrupted_state_sound.
 Print Assumptions C11_validator_steps_are_system_steps.
 Print Assumptions C11_rerun_recovers.
+Print Assumptions C11_whole_rerun_recovers.
